@@ -52,6 +52,10 @@ def main(run):
                          label="ISA C04: sob x every distance x every shape", timeout=600, on_export=rp.add, workers=2))
         jobs.append(dict(cfg_text=isa.cfg(invs=INVS, ops=REL_OPS_QUICK, gen="c04", tgts="c04", shapes=REL_SHAPES, bases=bases_rel),
                          label="ISA C04: relative operands x position x target x base x shape", timeout=600, on_export=rp.add, workers=6))
+    # the instruction itself at an ODD address (pdpy11 lets instructions stand anywhere): reach and parity are those of the DISTANCE
+    jobs.append(dict(cfg_text=isa.cfg(invs=INVS, ops=(isa.BRANCHES + ["sob"]) if thorough else ["br", "bcs", "sob"], gen="c04", dists="wide",
+                                      shapes=["dot", "lbl", "lblp"], bases=[0o1001] + ([0o157777] if thorough else [])),
+                     label="ISA C04: branches and sob standing at an odd address x every distance", timeout=900, on_export=rp.add, workers=3))
     for res in isa.tlc_parallel(jobs):
         run.add_tlc(res)
         if res.violated:
